@@ -78,3 +78,18 @@ fn d6_json_hex() {
     let r = std::panic::catch_unwind(|| serde_json::from_str::<SecretKey<Bls12381G1Impl>>("\"00\"").is_err());
     assert!(matches!(r, Ok(true)));
 }
+#[test]
+fn d9_pok_message_augmentation() {
+    // a holder of a valid MessageAugmentation signature cannot complete the proof of knowledge:
+    // the commitment / verifier hash `msg`, the signer hashed `pk || msg`
+    let sk = SecretKey::<Bls12381G1Impl>::from_hash(b"k");
+    let pk = sk.public_key();
+    let sig = sk.sign(SignatureSchemes::MessageAugmentation, b"msg").unwrap();
+    assert!(sig.verify(&pk, b"msg").is_ok());
+    let (u, x) = ProofCommitment::generate(b"msg", sig).unwrap();
+    let y = ProofCommitmentChallenge::from_hash(b"challenge");
+    let proof = u.finalize(x, y, sig).unwrap();
+    assert!(proof.verify(pk, b"msg", y).is_ok());
+    let tp = ProofOfKnowledgeTimestamp::generate(b"msg", sig).unwrap();
+    assert!(tp.verify(pk, b"msg", None).is_ok());
+}
